@@ -89,6 +89,12 @@ pub struct Crate {
     pub macro_notes: Vec<String>,
     /// (type, trait) -> names of the functions its impl blocks define
     pub impl_fns: HashMap<(String, String), Vec<String>>,
+    /// methods of traits the crate itself declares: a call `x.name(..)` may resolve to them
+    pub crate_trait_methods: Vec<(String, String)>,
+    /// problems that concern every translated function (imports renamed, std names redefined)
+    pub global_problems: Vec<String>,
+    /// leaf imports at module level: (visible name, full path)
+    pub imports: Vec<(String, String)>,
 }
 
 pub fn fnv(s: &str) -> String {
@@ -149,6 +155,7 @@ impl Crate {
                 if is_cfg_test(&f.attrs) {
                     return;
                 }
+                self.check_name(&f.sig.ident.to_string(), "function");
                 self.add_fn(file, f.sig.ident.to_string(), None, String::new(), &f.sig, &f.block);
             }
             syn::Item::Impl(im) => {
@@ -164,7 +171,26 @@ impl Crate {
                     }
                 }
             }
+            syn::Item::Trait(t) => {
+                for ti in &t.items {
+                    if let TraitItem::Fn(f) = ti {
+                        self.crate_trait_methods.push((t.ident.to_string(), f.sig.ident.to_string()));
+                    }
+                }
+                self.check_name(&t.ident.to_string(), "trait");
+            }
+            syn::Item::Use(u) => {
+                let mut leaves = vec![];
+                collect_use(&u.tree, String::new(), &mut leaves);
+                for (name, path) in leaves {
+                    self.check_import(&name, &path);
+                    self.imports.push((name, path));
+                }
+            }
+            syn::Item::Static(st) => self.check_name(&st.ident.to_string(), "static"),
+            syn::Item::Type(t) => self.check_name(&t.ident.to_string(), "type alias"),
             syn::Item::Enum(e) => {
+                self.check_name(&e.ident.to_string(), "enum");
                 self.enums.insert(e.ident.to_string(), e.clone());
             }
             syn::Item::Struct(s) => {
@@ -176,6 +202,7 @@ impl Crate {
             syn::Item::Macro(m) => {
                 if m.mac.path.is_ident("macro_rules") {
                     if let Some(id) = &m.ident {
+                        self.check_name(&id.to_string(), "macro");
                         self.macros.push((id.to_string(), fnv(&m.mac.tokens.to_string())));
                         self.macro_defs.insert(id.to_string(), m.mac.tokens.clone());
                     }
@@ -213,6 +240,28 @@ impl Crate {
                 }
             }
             _ => {}
+        }
+    }
+
+    /// an item of the crate named like something the translation gives a fixed (std / winnow) meaning
+    fn check_name(&mut self, name: &str, what: &str) {
+        if config::FIXED_NAMES.contains(&name) {
+            self.global_problems.push(format!("the crate defines a {} named `{}`, a name the translation takes to be the standard one", what, name));
+        }
+    }
+
+    fn check_import(&mut self, name: &str, path: &str) {
+        let last = path.rsplit("::").next().unwrap_or("");
+        if last != "*" && last != "self" && last != name {
+            self.global_problems.push(format!("import renamed: `use {} as {}`", path, name));
+        }
+        if let Some((_, expected)) = config::EXPECTED_IMPORTS.iter().find(|(n, _)| *n == name) {
+            if !expected.split('|').any(|e| e == path) {
+                self.global_problems.push(format!("`{}` is imported from `{}`, expected `{}`", name, path, expected));
+            }
+        }
+        if last == "*" && !config::KNOWN_GLOBS.contains(&path) {
+            self.global_problems.push(format!("glob import `use {}`", path));
         }
     }
 
@@ -497,6 +546,25 @@ impl Crate {
                     text.push_str(&i);
                 }
                 Ok(text)
+            }
+            CItem::CanonicalBody { ty, tr, name, body } => {
+                let lname = format!("Semver.Gen.canonical_{}_{}", ty, name);
+                entry.insert("kind".into(), Json::S("canonical_body".into()));
+                entry.insert("rust".into(), Json::S(format!("{}::{}", ty, name)));
+                entry.insert("lean".into(), Json::S(lname.clone()));
+                let fs = self.find_fn(Some(ty), tr, name);
+                if fs.len() != 1 {
+                    return Err(format!("expected exactly one `impl {} for {}` with `{}`, found {}", tr, ty, name, fs.len()));
+                }
+                let defined = self.impl_fns.get(&(ty.to_string(), tr.to_string())).cloned().unwrap_or_default();
+                if defined.len() != 1 {
+                    return Err(format!("impl {} for {} defines {}", tr, ty, defined.join(", ")));
+                }
+                let got = fs[0].block.to_token_stream().to_string().replace(' ', "");
+                if got != *body {
+                    return Err(format!("body of {}::{} is `{}`, expected `{}`", ty, name, got, body));
+                }
+                Ok(format!("/-- `{}::{}` ({}) is still `{}` -/\ntheorem {} : True := trivial\n", ty, name, tr, body, lname))
             }
             CItem::GenType { name } => {
                 let lean = lean_type_name(name).ok_or("unmapped generated type")?;
@@ -866,4 +934,28 @@ pub fn parser_output(sig: &Signature) -> Option<Type> {
 
 pub fn struct_field_conv(struct_name: &str, field: &str) -> Option<(&'static str, &'static str)> {
     config::STRUCT_FIELD_CONV.iter().find(|(s, f, _, _)| *s == struct_name && *f == field).map(|(_, _, m, c)| (*m, *c))
+}
+
+
+fn collect_use(t: &UseTree, prefix: String, out: &mut Vec<(String, String)>) {
+    let join = |p: &str, s: &str| if p.is_empty() { s.to_string() } else { format!("{}::{}", p, s) };
+    match t {
+        UseTree::Path(p) => collect_use(&p.tree, join(&prefix, &p.ident.to_string()), out),
+        UseTree::Name(n) => {
+            let name = n.ident.to_string();
+            if name == "self" {
+                let last = prefix.rsplit("::").next().unwrap_or("").to_string();
+                out.push((last, prefix.clone()));
+            } else {
+                out.push((name.clone(), join(&prefix, &name)));
+            }
+        }
+        UseTree::Rename(r) => out.push((r.rename.to_string(), join(&prefix, &r.ident.to_string()))),
+        UseTree::Glob(_) => out.push(("*".into(), join(&prefix, "*"))),
+        UseTree::Group(g) => {
+            for i in &g.items {
+                collect_use(i, prefix.clone(), out);
+            }
+        }
+    }
 }
